@@ -6,7 +6,7 @@ interesting code points, EmptyClassException iff nothing is left, under several 
 The interval core (reduce_ranges, reduce_chars, subtract_ranges) is additionally under contract (VCs with loop
 invariants over lists-as-maps) where the verifier can process the current source; see the evidence."""
 from .. import vcrun
-from . import _cls
+from . import _cls, _b1
 
 LEVEL = "proof"
 K = "pregex.core.classes.__Class."
@@ -163,6 +163,7 @@ def run(rep, tier):
     for q in INTERVAL:
         vcrun.run_bounded(rep, q, tier, "run-time evaluation of the proved contract on the real nested function (cross-check; not "
                                        "counted as proof)", limit=1500 if tier == "quick" else 40000)
+    _b1.run(rep, tier, ["category", "total"], "G9b: a Token-typed operand of | / - is read as one character (class invariant, assumed in the VCs)")
     _cls.run_named(rep)
     _cls.run_bounded(rep, tier, "algebra", "B3",
                      "S(A|B) = S(A) u S(B); S(A-B) = S(A) \\ S(B) and EmptyClassException iff empty; S(~A) = U \\ S(A), ~~A = A; "
